@@ -1,8 +1,8 @@
 (* Eco/Pypi/Range.v — model of pkg/ecosystem/pypi/range.go (definitions only).
 
    A range is a list of (operator, bound text) constraints, all of which must hold.  The
-   shorthands ~=V, ==V.* and !=V.* are desugared at parse time into two comparator
-   constraints whose bounds are printed texts; === compares the version's String() with the
+   shorthands ~=V and ==V.* are desugared at parse time into two comparator constraints whose
+   bounds are printed texts, !=V.* into one constraint "!=*" carrying both bounds; === compares the version's String() with the
    bound text.  Bounds are parsed lazily (in Contains), except inside the shorthands. *)
 From Verif.Base Require Import Bytes GoNum Ord.
 From Verif.Eco Require Import RangeCore.
@@ -12,22 +12,28 @@ From Verif.Eco.Pypi Require Version.
 Definition pypi_ops : list bytes :=
   [$"==="; $"~="; $"=="; $"!="; $"<="; $">="; $"<"; $">"].
 
-Definition constraint := (bytes * bytes)%type.
+(* constraint{operator, version, upper}; [upper] is used by the internal operator "!=*" only *)
+Record constraint := mkc { c_op : bytes; c_ver : bytes; c_upper : bytes }.
+Definition plain (op ver : bytes) : constraint := mkc op ver [].
 
 Section Range.
   Variable vok : bytes -> bool.                       (* NewVersion succeeds *)
   Variable vcmp : bytes -> bytes -> comparison.       (* Compare of the parsed texts *)
 
-  (* e.NewVersion(text), then reading v.release *)
-  Definition release_of (text : bytes) : option (list Z) :=
+  (* e.NewVersion(text), then reading v.epoch and v.release *)
+  Definition fields_of (text : bytes) : option (Z * list Z) :=
     if vok text
     then match Version.parse_core (trim_space text) with
-         | Some c => Some (Version.c_release c)
+         | Some c => Some (Version.c_epoch c, Version.c_release c)
          | None => None
          end
     else None.
 
   Definition inc (z : Z) : Z := wrap64 (z + 1).
+
+  (* epoch := "" ; if v.epoch != 0 { epoch = strconv.Itoa(v.epoch) + "!" } *)
+  Definition epoch_prefix (ep : Z) : bytes :=
+    if (ep =? 0)%Z then [] else dec_z ep ++ $"!".
 
   (* release[:len-1] printed, its last element incremented (len >= 2) *)
   Fixpoint bump_init (l : list Z) : list bytes :=
@@ -41,47 +47,50 @@ Section Range.
         end
     end.
 
-  (* parseCompatibleRelease *)
-  Definition compatible_upper (rel : list Z) : option bytes :=
-    match rel with
-    | [] => None
-    | [a] => Some (dec_z (inc a) ++ $".0")
-    | _ => Some (join $"." (bump_init rel) ++ $".0")
-    end.
-
-  Definition parse_compatible (version : bytes) : option (list constraint) :=
-    match release_of version with
-    | None => None
-    | Some rel =>
-        match compatible_upper rel with
-        | Some up => Some [($">=", version); ($"<", up)]
-        | None => Some [($">=", version)]
+  (* release printed, its last element incremented *)
+  Fixpoint bump_last (l : list Z) : list bytes :=
+    match l with
+    | [] => []
+    | a :: r =>
+        match r with
+        | [] => [dec_z (inc a)]
+        | _ => dec_z a :: bump_last r
         end
     end.
 
-  (* fmt.Sprintf("%d.%d.0", a, b) *)
-  Definition fmt3 (a b : bytes) : bytes := a ++ $"." ++ b ++ $".0".
+  (* parseCompatibleRelease *)
+  Definition compatible_upper (ep : Z) (rel : list Z) : option bytes :=
+    match rel with
+    | [] => None
+    | [a] => Some (epoch_prefix ep ++ dec_z (inc a) ++ $".0")
+    | _ => Some (epoch_prefix ep ++ join $"." (bump_init rel) ++ $".0")
+    end.
 
-  (* parseWildcardConstraint *)
+  Definition parse_compatible (version : bytes) : option (list constraint) :=
+    match fields_of version with
+    | None => None
+    | Some (ep, rel) =>
+        match compatible_upper ep rel with
+        | Some up => Some [plain $">=" version; plain $"<" up]
+        | None => Some [plain $">=" version]
+        end
+    end.
+
+  (* parseWildcardConstraint: the prefix interval [epoch!release, epoch!release-with-last+1) *)
+  Definition wildcard_lower (ep : Z) (rel : list Z) : bytes :=
+    epoch_prefix ep ++ join $"." (map dec_z rel).
+  Definition wildcard_upper (ep : Z) (rel : list Z) : bytes :=
+    epoch_prefix ep ++ join $"." (bump_last rel).
+
   Definition parse_wildcard (op version : bytes) : option (list constraint) :=
     let base := trim_suffix $".*" version in
-    match release_of (base ++ $".0") with
+    match fields_of base with
     | None => None
-    | Some rel =>
-        if beq op $"==" then
-          match rel with
-          | a :: b :: _ =>
-              Some [($">=", fmt3 (dec_z a) (dec_z b)); ($"<", fmt3 (dec_z a) (dec_z (inc b)))]
-          | [a] =>
-              Some [($">=", fmt3 (dec_z a) $"0"); ($"<", fmt3 (dec_z (inc a)) $"0")]
-          | [] => None
-          end
-        else if beq op $"!=" then
-          match rel with
-          | a :: b :: _ =>
-              Some [($"<", fmt3 (dec_z a) (dec_z b)); ($">=", fmt3 (dec_z a) (dec_z (inc b)))]
-          | _ => None
-          end
+    | Some (ep, rel) =>
+        let lo := wildcard_lower ep rel in
+        let up := wildcard_upper ep rel in
+        if beq op $"==" then Some [plain $">=" lo; plain $"<" up]
+        else if beq op $"!=" then Some [mkc $"!=*" lo up]
         else None
     end.
 
@@ -97,9 +106,9 @@ Section Range.
             if beq op $"~=" then parse_compatible version
             else if (beq op $"==" || beq op $"!=") && has_suffix $".*" version
             then parse_wildcard op version
-            else Some [(op, version)]
+            else Some [plain op version]
         end
-    | None => Some [($"==", con)]
+    | None => Some [plain $"==" con]
     end.
 
   Fixpoint parse_parts (parts : list bytes) : option (list constraint) :=
@@ -146,8 +155,13 @@ Section Range.
   (* [v] is the text the probed version was parsed from: version.String() is its trimmed
      form, and Compare is asked of the oracle on the text itself *)
   Definition matches (v : bytes) (c : constraint) : bool :=
-    if beq (fst c) $"===" then beq (trim_space v) (snd c)
-    else if vok (snd c) then sat (sem (fst c)) (vcmp v (snd c))
+    if beq (c_op c) $"===" then beq (trim_space v) (c_ver c)
+    else if vok (c_ver c) then
+      if beq (c_op c) $"!=*" then
+        if vok (c_upper c)
+        then sat CLt (vcmp v (c_ver c)) || sat CGe (vcmp v (c_upper c))
+        else false
+      else sat (sem (c_op c)) (vcmp v (c_ver c))
     else false.
 
   Definition contains (r : range) (v : bytes) : bool := forallb (matches v) (r_cs r).
